@@ -267,6 +267,7 @@ template<class E> std::string gen_ser_line(Rng& rng, bool rebased) {
 		std::vector<Ex> ex; long ne = 1;
 		for(int k = 0; k < D; ++k) {
 			long sz = (long[]){0, 1, 2, 3, 4}[rng.pick({14, 18, 30, 24, 14})];
+			if(rng.coin(3)) { sz = (long[]){16, 17, 33}[rng.range(0, 2)]; }  // now and then beyond the small sizes (cap still applies)
 			if(ne * sz > cap) sz = 1;
 			ne *= sz;
 			long f = (rebased || rng.coin(15)) ? rng.range(-3, 3) : 0;
